@@ -70,6 +70,7 @@ var xssSeeds = []string{
 	`<img src=x:alert(1) onerror=eval(src)>`, `<table background="javascript:alert(1)">`, `<a href="//evil.com" target=_blank>x</a>`, `<xmp><img src=x onerror=alert(1)></xmp>`, `<listing><img src=x onerror=alert(1)></listing>`,
 	`<textarea><img src=x onerror=alert(1)></textarea>`, `<title><img src=x onerror=alert(1)></title>`, `<![CDATA[<img src=x onerror=alert(1)>]]>`, `<?xml-stylesheet href="javascript:alert(1)"?>`, `<!--[if gte IE 4]><SCRIPT>alert('XSS');</SCRIPT><![endif]-->`,
 	`<img src="x` + "`" + ` ` + "`" + `<script>alert(1)</script>"` + "`" + ` ` + "`" + `>`, `<a href="java\0script:alert(1)">`, "<a href=\"java\x00script:alert(1)\">x</a>", `<img/src="x"/onerror=alert(1)>`, `<svg/onload=alert(1)>`,
+	`<image src="javascript:alert(1)">`, `<IMAGE SRC=JaVaScRiPt:alert(1) alt=x>`, `<svg><image href="javascript:alert(1)" /></svg>`, `<image src="data:text/html,x" width=1>`,
 	`<details open ontoggle=alert(1)>`, `<a href=javascript&colon;alert(1)>x</a>`, `<a href="vbscript:msgbox(1)">x</a>`, `<img usemap="javascript:alert(1)">`, `<del cite="javascript:alert(1)">x</del>`, `<q cite="  javascript:alert(1)">x</q>`,
 }
 
